@@ -29,6 +29,7 @@ type vfHistArgs struct {
 	Collide        int // number of same-hash groups to force (C13)
 	InvalidKeyPct  int
 	FullCheckEvery int
+	Variants       string
 }
 
 // vfKeysForServed generates keys whose reference bucket is served by cfg.
@@ -85,7 +86,7 @@ func vfHistories(env *vfc.Env, prefix string, extra func(c *vfHistCase, sut *vfS
 				}
 			}
 		}
-		o := model.GenOpts{NKeys: nk, NOps: a.NOps, MaxVal: a.MaxVal, BigPct: a.BigPct, Restart: a.Restart, GC: a.GC, Maint: true, MaintPct: a.MaintPct, InvalidKeyPct: a.InvalidKeyPct}
+		o := model.GenOpts{NKeys: nk, NOps: a.NOps, MaxVal: a.MaxVal, BigPct: a.BigPct, Restart: a.Restart, GC: a.GC, Maint: true, MaintPct: a.MaintPct, InvalidKeyPct: a.InvalidKeyPct, Variants: a.Variants}
 		if a.Collide > 0 {
 			o.NoRev = false
 		}
